@@ -234,3 +234,92 @@ def rule_E(FA):
                                     '%d empty-sensitive operations reachable, all protected' % len(visited), props,
                                     nontrivial=len(visited) > 0, sample={'sensitive_ops': sorted(set(visited))[:8]}))
     return out
+
+
+# ---------------------------------------------------------------- R-E (iterators)
+
+VIEW_CALLS = ('as_ref', 'as_mut', 'deref', 'deref_mut', 'borrow', 'borrow_mut', 'as_slice', 'clone')
+
+
+def strip_views(t):
+    if not isinstance(t, tuple) or not t:
+        return t
+    if t[0] == 'call' and t[1].split('::')[-1] in VIEW_CALLS and len(t[2]) == 1:
+        return strip_views(t[2][0])
+    return tuple(strip_views(x) for x in t)
+
+
+def _iter_empty_sites(FA, dd):
+    """`next` / `next_back` / `len` .. of the iterator types: `x.len() - k` / `x.count - k` on a field of the container the
+    iterator walks (a struct with a derived Default, whose vectors are empty and counters zero in that state) must be
+    dominated by a test that involves the container: an iterator over the default value is a reachable state."""
+    out = []
+    by_field = {}
+    for s in dd:
+        adt = FA.adts.get(s)
+        if adt is None or not adt.get('exported') or '::_::' in s:
+            continue
+        for x in adt['fields']:
+            by_field.setdefault(x['name'], []).append((s, x['ty']))
+    for f in FA.lib_fns(include_closures=False):
+        if f['impl_trait'].split('::')[-1] not in ('Iterator', 'DoubleEndedIterator', 'ExactSizeIterator') or f['name'] not in ('next', 'next_back', 'nth', 'len', 'size_hint'):
+            continue
+        F = FA.fn(f)
+        F.dom()
+        n = 0
+        bad = None
+        for bi, b in enumerate(F.blocks):
+            if bi not in F.reach:
+                continue
+            for s_ in b['s']:
+                rv = s_.get('rv')
+                if not rv or rv['k'] != 'bin' or not rv['op'].startswith('Sub') or any(m.startswith('debug_assert') for m in s_.get('macros', [])):
+                    continue
+                a = strip_views(norm(F.operand_term(rv['a'])))
+                c = norm(F.operand_term(rv['b']))
+                if not (c[:1] == ('const',) and isinstance(c[1], int) and c[1] >= 1):
+                    continue
+                x = a
+                is_len = False
+                if x[:1] == ('call',) and x[1].split('::')[-1] == 'len' and x[2]:
+                    is_len = True
+                    # the receiver may be the raw slice behind a Box / Vec field (`self.qv.data.0.pointer as *const [T]`)
+                    x = next((st for st in subterms(strip_views(x[2][0])) if isinstance(st, tuple) and st[:1] == ('field',) and isinstance(st[1], tuple)
+                              and st[1][:1] == ('field',) and st[1][1] == SELF and st[2] in by_field), ('?',))
+                # x = self.<f0>.<fld>
+                if not (x[:1] == ('field',) and isinstance(x[1], tuple) and x[1][:1] == ('field',) and x[1][1] == SELF):
+                    continue
+                P, fld = x[1], x[2]
+                owners = [(s, ty) for s, ty in by_field.get(fld, []) if (('Vec<' in ty or 'Box<[' in ty) if is_len else ty in UINT)]
+                if not owners:
+                    continue
+                n += 1
+                guarded = False
+                for at in path_atoms(F, bi):
+                    if at[0] not in ('<', '<=', '!=', 'is', '=='):
+                        continue
+                    for side in at[1:3]:
+                        if isinstance(side, tuple) and contains(strip_views(side), P):
+                            guarded = True
+                if not guarded and bad is None:
+                    bad = (s_.get('line', ''), '%s - %d' % (show(a)[:60], c[1]), owners[0][0])
+        key = 'R-E|%s|container state' % fn_key(f)
+        props = ['C12', 'C04']
+        from .r_arith import props_of_module
+        props = props + [p for p in props_of_module(fn_key(f), default=()) if p not in props]
+        if bad:
+            out.append(Inst('R-E', key, 'violation', bad[0],
+                            '`%s` in %s::%s with no dominating test on the container: for the empty / default %s it underflows (an iterator over the default value is reachable through the public API)' % (
+                                bad[1], f.get('_base', '').split('::')[-1], f['name'], 'container'), props))
+        elif n:
+            out.append(Inst('R-E', key, 'ok', f['span'], '%d subtraction(s) from a length / counter of the walked container, each after a test on it' % n, props))
+    return out
+
+
+_rule_E_base = rule_E
+
+
+def rule_E(FA):
+    out = _rule_E_base(FA)
+    out.extend(_iter_empty_sites(FA, derived_default_types(FA)))
+    return out
